@@ -65,6 +65,23 @@ def check_space(chk, drv, sp, stats, ndata):
             return
         chk.fail('C09:raises', 'get_quadrature_coefficients raised %s: %s' % (type(e).__name__, e), case)
         return
+    # the weights handed out belong to the caller: interpolating with the same interpolator afterwards (and asking for the weights
+    # again) must not change the array that was returned
+    w_held = itp.get_quadrature_coefficients()
+    w_first = np.array(w_held, dtype=float, copy=True)
+    try:
+        sref = Spline1D(sp.basis)
+        for _ in range(2):
+            itp.compute_interpolant(np.array([rng.uniform(-1, 1) for _ in range(sp.nb)]), sref)
+    except Exception as e:  # noqa: BLE001
+        chk.fail('C09:raises', 'compute_interpolant after get_quadrature_coefficients raised %s: %s' % (type(e).__name__, e), case)
+        return
+    held_after = np.array(w_held, dtype=float, copy=True)
+    again = np.array(itp.get_quadrature_coefficients(), dtype=float)
+    if not np.array_equal(held_after, w_first) or not np.array_equal(w_first, w) or not np.array_equal(again, w):
+        chk.fail('C09:weights-aliased', 'the weight vector returned by get_quadrature_coefficients changes when the interpolator is used afterwards '
+                 '(or differs between two calls)', case, expected=[float(x) for x in w_first], actual=[float(x) for x in held_after])
+        return
     Ir = np.array(sp.basis.integrals, dtype=float)
     xs = np.asarray(sp.basis.greville, dtype=float)
     if not H.all_finite(w, Ir, xs):
@@ -233,6 +250,12 @@ def run(chk):
         if chk.quick():
             fixed = [f for k, f in enumerate(fixed) if (k + chk.seed) % 3 == 0 or f[2].startswith('cu')]
         todo = [H.gen_space(rng, p, per, kind, nc) for (p, per, kind, nc) in fixed]
+        # uniform cubic spaces (fast path) with generic origins / lengths and up to 30 cells: quotients like (x - xmin)/dx are then
+        # not exact, e.g. the simulation's radial domain [0.1, 14.5]
+        for k in range(chk.n(90, 400)):
+            a = rng.choice([0.1, 0.1, 0.3, 1.1, rng.uniform(-10, 10), rng.uniform(0, 2)])
+            L_ = rng.choice([1.0, 14.4, rng.uniform(0.5, 20.0)])
+            todo.append(H.Sp(3, k % 3 == 2, 'cu', np.linspace(a, a + L_, rng.randint(4, 30) + 1)))
         todo += [H.gen_space(rng) for _ in range(chk.n(180, 3000))]
         for sp in todo:
             check_space(chk, drv, sp, stats, chk.n(2, 4))
